@@ -509,6 +509,99 @@ def emit_patterns(name, fname, qual):
     return txt
 
 
+def _string_alternatives(func, var):
+    """constant strings a local variable can hold, each with the (textual) condition under which it is assigned:
+       `v = A if c else B`  and  if/elif/else chains assigning constants.  Fail closed on anything else."""
+    alts = []
+
+    def walk(stmts, conds):
+        for st in stmts:
+            if isinstance(st, ast.Assign) and len(st.targets) == 1 and isinstance(st.targets[0], ast.Name) and st.targets[0].id == var:
+                v = st.value
+                if isinstance(v, ast.Constant) and isinstance(v.value, str):
+                    alts.append((' and '.join(conds) or 'True', v.value))
+                elif isinstance(v, ast.IfExp) and all(isinstance(b, ast.Constant) and isinstance(b.value, str) for b in (v.body, v.orelse)):
+                    c = ast.unparse(v.test)
+                    alts.append((' and '.join(conds + [c]), v.body.value))
+                    alts.append((' and '.join(conds + [f'not ({c})']), v.orelse.value))
+                else:
+                    raise GenError(f'pattern variable {var}: assignment not understood: {ast.unparse(st)}')
+            elif isinstance(st, ast.If):
+                c = ast.unparse(st.test)
+                walk(st.body, conds + [c])
+                walk(st.orelse, conds + [f'not ({c})'])
+            elif isinstance(st, (ast.For, ast.While, ast.With, ast.Try)):
+                walk(getattr(st, 'body', []), conds)
+                walk(getattr(st, 'orelse', []), conds)
+            elif isinstance(st, ast.FunctionDef):
+                walk(st.body, conds)
+    walk(func.body, [])
+    if not alts:
+        raise GenError(f'pattern variable {var}: no constant assignment found')
+    return alts
+
+
+def collect_pattern_roles(fname, qual, fn_names=('rearrange', 'repeat')):
+    """(role target, call, pattern) for every rearrange / repeat call of the function, in source order.  The role target says where the
+    result goes: the assigned variable, `return`, or `arg:<callee>` for a nested use; for a pattern held in a local variable or an f-string
+    over one, one row per alternative with `@<condition>` appended.  Fail closed on patterns that cannot be resolved to constants."""
+    func = find_func(fname, qual)
+    parents = {}
+    for n in ast.walk(func):
+        for c in ast.iter_child_nodes(n):
+            parents[c] = n
+    rows = []
+    for n in ast.walk(func):
+        if not (isinstance(n, ast.Call) and call_name(n) in fn_names):
+            continue
+        # where does the value go?
+        par = parents.get(n)
+        if isinstance(par, ast.Assign) and par.value is n:
+            target = ast.unparse(par.targets[0])
+        elif isinstance(par, ast.Return):
+            target = 'return'
+        elif isinstance(par, (ast.Call,)):
+            target = 'arg:' + (call_name(par) or '?')
+        elif isinstance(par, ast.keyword):
+            target = 'kw:' + (par.arg or '?')
+        else:
+            target = 'expr:' + type(par).__name__
+        if len(n.args) < 2:
+            raise GenError(f'{qual}: {call_name(n)} call without a pattern argument')
+        a = n.args[1]
+        if isinstance(a, ast.Constant) and isinstance(a.value, str):
+            alts = [(None, a.value)]
+        elif isinstance(a, ast.Name):
+            alts = _string_alternatives(func, a.id)
+        elif isinstance(a, ast.JoinedStr):
+            names = [v.value.id for v in a.values if isinstance(v, ast.FormattedValue) and isinstance(v.value, ast.Name)]
+            if len(names) != 1 or any(isinstance(v, ast.FormattedValue) and not isinstance(v.value, ast.Name) for v in a.values):
+                raise GenError(f'{qual}: f-string pattern not understood: {ast.unparse(a)}')
+            alts = []
+            for cond, val in _string_alternatives(func, names[0]):
+                txt = ''.join(v.value if isinstance(v, ast.Constant) else val for v in a.values)
+                alts.append((cond, txt))
+        else:
+            raise GenError(f'{qual}: pattern argument not understood: {ast.unparse(a)}')
+        for cond, pat in alts:
+            rows.append((n.lineno, n.col_offset, target + (f'@{cond}' if cond else ''), call_name(n), pat))
+    rows.sort()
+    return [(t, c, p) for _, _, t, c, p in rows]
+
+
+def emit_pattern_roles(name, specs):
+    """specs: list of (file, qualified function).  Emits `list (string * string * string)` = (function:target, call, pattern)."""
+    rows = []
+    for fname, qual in specs:
+        for t, c, p in collect_pattern_roles(fname, qual):
+            rows.append((f'{qual}:{t}', c, p))
+    txt = HEADER.format(comment='rearrange / repeat patterns with the role of their result (function:target, call, pattern), source order')
+    txt += 'From Coq Require Import String.\nOpen Scope string_scope.\n'
+    body = ';\n   '.join('("%s", "%s", "%s")' % (t.replace('"', "'"), c, p.replace('"', "'")) for t, c, p in rows)
+    txt += f'Definition {name} : list (string * string * string) :=\n  [{body}].\n'
+    return txt
+
+
 def emit_call_sequence(name, fname, qual, names, comment=''):
     """Ordered list of the dotted call names from `names` that occur in the function (source order),
     each with its argument text.  Used for collectives / ordering obligations."""
